@@ -15,9 +15,10 @@ class C16(Prop):
         return [Suite("ring", ringgen.HEADER, [ringgen.gen_case(rng, profile=prof(j)) for j in range(n)]),
                 Suite("fsring", ringgen.HEADER, [ringgen.gen_case(rng, profile=prof(j), kind="fsring") for j in range(n)]),
                 Suite("uni_move_atomic", unigen.HEADER, [unigen.gen_case(rng, "move_atomic", Ns=(2,), profile="drive") for _ in range(n // 2)]),
-                Suite("uni_move_full_sync", unigen.HEADER, [unigen.gen_case(rng, "move_full_sync", Ns=(2,), profile="drive") for _ in range(n // 2)])]
+                Suite("uni_move_full_sync", unigen.HEADER, [unigen.gen_case(rng, "move_full_sync", Ns=(2,), profile="drive") for _ in range(n // 2)])
+                ] + unigen.oracle_only_suites(rng, n // 2, profile="drive", Ns=(2,))
     def oracle(self, case, recs):
-        if "chan" in case.meta: return unigen.uni_oracle_exactly_once(case, recs)
+        if "chan" in case.meta: return unigen.uni_oracle_exactly_once(case, recs) + unigen.uni_oracle_justified_full(case, recs)
         hits = ringgen.oracle_exactly_once(case, recs) + ringgen.oracle_reject_neutral(case, recs)
         hits += [(cls, t) for cls, t in ringgen.oracle_fifo_bounds(case, recs) if "rejected as full" in t or "more than N" in t]
         return hits
@@ -27,4 +28,4 @@ class C16(Prop):
     def parse_replay(self, text):
         lines = [l for l in text.splitlines() if l.strip() and not l.startswith("#")]
         cases = [unigen.parse_case_line(l) if l.startswith("uni ") else ringgen.parse_case_line(l) for l in lines]
-        return Suite("replay", unigen.HEADER + "\n" + ringgen.HEADER, cases)
+        return Suite("replay", unigen.XHEADER + "\n" + ringgen.HEADER, cases)
